@@ -678,7 +678,7 @@ func (*ParserData).FlagsPush
   ensures [C16] e.Config.EnableDiceWoD == old(e.Config.EnableDiceWoD) && e.Config.EnableDiceCoC == old(e.Config.EnableDiceCoC) && e.Config.EnableDiceFate == old(e.Config.EnableDiceFate) && e.Config.EnableDiceDoubleCross == old(e.Config.EnableDiceDoubleCross) && e.Config.DisableStmts == old(e.Config.DisableStmts)
 
 func (*ParserData).LoopEnd
-  props C08 C01
+  props C02 C08 C01
   requires e != nil && len(e.loopInfo) >= 1
   requires 0 <= e.loopInfo[len(e.loopInfo)-1].continueIndex && e.loopInfo[len(e.loopInfo)-1].continueIndex <= len(e.continueStack)
   requires 0 <= e.loopInfo[len(e.loopInfo)-1].breakIndex && e.loopInfo[len(e.loopInfo)-1].breakIndex <= len(e.breakStack)
